@@ -219,6 +219,12 @@ func (db *DB) loadSchema(of Object) (s *Schema, err error) {
 			return
 		}
 
+		// a schema file containing null unmarshals to no schema at all
+		if s == nil {
+			err = fmt.Errorf("%w: %s is empty", ErrBadSchema, path)
+			return
+		}
+
 		// we initialize schema from object
 		if err = s.initialize(db, of); err != nil {
 			return
